@@ -37,3 +37,8 @@ CORPUS += [
     M("system-exit-swallowed", "msmart/cli.py", "    except KeyboardInterrupt:\n        pass\n\n    exit(0)", "    except (KeyboardInterrupt, SystemExit):\n        pass\n\n    exit(0)"),
     M("n-shutdown-in-finally", "msmart/cli.py", "    except KeyboardInterrupt:\n        pass\n\n    exit(0)", "    except KeyboardInterrupt:\n        pass\n    finally:\n        logging.shutdown()\n\n    exit(0)", "S"),
 ]
+# round 8 (C20.f): a catch-all in the runner does not turn a rejection into status 0
+CORPUS += [
+    M("runner-catches-exception", "msmart/cli.py", "    except KeyboardInterrupt:\n        pass\n\n    exit(0)", "    except KeyboardInterrupt:\n        pass\n    except Exception as e:\n        _LOGGER.error(\"Command failed: %s\", e)\n\n    exit(0)"),
+    M("n-runner-catches-exception-exit-1", "msmart/cli.py", "    except KeyboardInterrupt:\n        pass\n\n    exit(0)", "    except KeyboardInterrupt:\n        pass\n    except Exception as e:\n        _LOGGER.error(\"Command failed: %s\", e)\n        exit(1)\n\n    exit(0)", "S"),
+]
